@@ -226,6 +226,41 @@ def rule_drains_all(ctx):
         raise AnalysisBroken("only %d close functions that drain several wait lists found" % n)
 
 
+# ---------------------------------------------------------------------------
+# R16: a negotiation that fails gives the creator's reference back
+
+
+def rule_nego_release(ctx):
+    from .. import guards as G
+    r = ctx.rule("C10.R16", "T4", "a negotiation that fails gives the creator's reference back: a transport pipe is created with two "
+                 "references (A.2), one of them the transport's own, held while the pipe negotiates or waits on the endpoint; in "
+                 "the negotiation callbacks of the stream transports every nni_pipe_close of the failing pipe is followed on "
+                 "every path by nni_pipe_rele on it -- the reaper releases only the other reference, so without this one the "
+                 "pipe is never destroyed and its connection (a file descriptor) is never closed: one leaked descriptor per "
+                 "peer that botches the handshake, until accept fails with EMFILE for everybody", floor=2)
+    prog = ctx.prog
+    n = 0
+    for name, file in (("tcptran_pipe_nego_cb", "transport/tcp/tcp.c"), ("ipc_pipe_nego_cb", "transport/ipc/ipc.c"),
+                       ("sfd_tran_pipe_nego_cb", "transport/socket/sockfd.c")):
+        f = prog.need(name, file)
+        closes = list(f.calls("nni_pipe_close"))
+        if not closes:
+            raise AnalysisBroken("%s no longer closes the failing pipe" % name)
+        for c in closes:
+            n += 1
+            what = show(f.expand(c.node["args"][0]))
+            rel = {(k.b, k.i) for k in f.calls("nni_pipe_rele") if k.node["args"] and show(f.expand(k.node["args"][0])) == what}
+            off = G.must_pass(f, (c.b, c.i + 1), rel) if rel else (c.b, c.i)
+            if off is None:
+                r.ob(f, "nni_pipe_close(%s) at line %s is followed by nni_pipe_rele on every path" % (what, c.line))
+            else:
+                ctx.fail(r, f, "failing pipe closed but the creator's reference kept", c.line,
+                         "%s closes %s after a failed negotiation (line %s) and can return without nni_pipe_rele(%s): the pipe "
+                         "keeps one reference for ever, is never finalized, and its connection stays open" % (name, what, c.line, what))
+    if n < 2:
+        raise AnalysisBroken("only %d closes of a failing pipe found in the negotiation callbacks" % n)
+
+
 def run(ctx):
     ctx.guard(rule_pairing)
     ctx.guard(rule_reentry)
@@ -1436,6 +1471,7 @@ def run(ctx):   # noqa: F811
     ctx.guard(rule_release_listed)
     ctx.guard(rule_wakeups)
     ctx.guard(rule_drains_all)
+    ctx.guard(rule_nego_release)
     from . import c02
     ctx.guard(c02.rule_a7)
     for rr in ctx.rules:
